@@ -1572,3 +1572,146 @@ func init() {
 	registry["C03"].Meta.Rules["C03.15"] = "a backward scan reaches index 0: a loop that counts an index down by one and indexes a sequence with exactly that index runs while the index is >= 0 (with > 0 the first element is never examined: a name heap holding a single one-character name at offset 0 is taken as empty by PrepareForModification, and the second name of the group overwrites the first)"
 	registry["C03"].Rules = append(registry["C03"].Rules, func(c *Ctx, r *Result) { backwardScanRule(c, r, "C03.15", nil, 3) })
 }
+
+// ---- the group reader lists every entry (C03.16 / C17.6) ----
+//
+// In Group.loadChildren each entry of the group's index becomes a child, or the call fails. The only entries passed over are
+// soft links (a documented limitation, recorded under C03). Any other branch that sends an entry back to the loop head without
+// appending a child - its address equals the group's own, its address lies beyond the size of the file - makes a link that is
+// in the file disappear from the listing without an error.
+func listingCompleteRule(c *Ctx, r *Result, rule string) {
+	fn := c.FnOpt("hdf5.Group.loadChildren")
+	if fn == nil {
+		r.Shortfall(c, rule, rule+": hdf5.Group.loadChildren not found")
+		return
+	}
+	appendBlk := map[*ssa.BasicBlock]bool{}
+	for _, fs := range c.DirectFieldStores(fn) {
+		if fs.Fn == fn && strings.HasSuffix(fs.Key, ".children") {
+			appendBlk[fs.In.Block()] = true
+		}
+	}
+	if len(appendBlk) == 0 {
+		r.Shortfall(c, rule, rule+": loadChildren does not append to children")
+		return
+	}
+	type loopT struct {
+		h    *ssa.BasicBlock
+		body map[*ssa.BasicBlock]bool
+	}
+	var loops []loopT
+	for _, h := range fn.Blocks {
+		for _, p := range h.Preds {
+			if h.Dominates(p) {
+				loops = append(loops, loopT{h, naturalLoop(h)})
+				break
+			}
+		}
+	}
+	n := 0
+	type skipT struct {
+		pos string
+		ok  bool
+	}
+	var found []skipT
+	for _, L := range loops {
+		hasAppend := false
+		for b := range L.body {
+			if appendBlk[b] {
+				hasAppend = true
+			}
+		}
+		if !hasAppend {
+			continue
+		}
+		// blocks that count as "an entry was turned into children": append blocks and inner loops that contain one
+		done := map[*ssa.BasicBlock]bool{}
+		for b := range appendBlk {
+			done[b] = true
+		}
+		for _, M := range loops {
+			if M.h == L.h || !L.body[M.h] {
+				continue
+			}
+			inner := false
+			for b := range M.body {
+				if appendBlk[b] {
+					inner = true
+				}
+			}
+			if inner {
+				for b := range M.body {
+					done[b] = true
+				}
+			}
+		}
+		skips := func(s *ssa.BasicBlock) bool {
+			if !L.body[s] || done[s] {
+				return false
+			}
+			seen := map[*ssa.BasicBlock]bool{s: true}
+			work := []*ssa.BasicBlock{s}
+			for len(work) > 0 {
+				x := work[len(work)-1]
+				work = work[:len(work)-1]
+				if x == L.h {
+					return true
+				}
+				for _, y := range x.Succs {
+					if L.body[y] && !done[y] && !seen[y] {
+						seen[y] = true
+						work = append(work, y)
+					}
+				}
+			}
+			return false
+		}
+		for b := range L.body {
+			if b == L.h || done[b] {
+				continue
+			}
+			ifi, ok := b.Instrs[len(b.Instrs)-1].(*ssa.If)
+			if !ok {
+				continue
+			}
+			s0, s1 := skips(b.Succs[0]), skips(b.Succs[1])
+			if s0 == s1 {
+				continue
+			}
+			n++
+			cond := ifi.Cond
+			for {
+				u, isNot := cond.(*ssa.UnOp)
+				if !isNot || u.Op != token.NOT {
+					break
+				}
+				cond = u.X
+			}
+			allowed := false
+			if call, isCall := cond.(*ssa.Call); isCall && strings.HasSuffix(c.calleeName(call), ".IsSoftLink") {
+				allowed = true
+			}
+			pos := c.Pos(fn.Pos())
+			if ci, isI := cond.(ssa.Instruction); isI {
+				pos = c.InstrPos(ci)
+			}
+			found = append(found, skipT{pos, allowed})
+			_ = fmt.Sprintf("%s", "an index entry goes back")
+		}
+	}
+	sort.Slice(found, func(i, j int) bool { return found[i].pos < found[j].pos })
+	for i, f := range found {
+		r.Check(f.ok, rule, fmt.Sprintf("%s#entry-skipped-only-as-soft-link-%d", c.Name(fn), i+1), f.pos, "an index entry goes back to the loop head without becoming a child only under IsSoftLink(); any other skip condition drops a link that is in the file from the listing, silently")
+	}
+	if n < 2 {
+		r.Shortfall(c, rule, fmt.Sprintf("%s: only %d skip decisions found in the entry loops of loadChildren", rule, n))
+	}
+}
+
+func init() {
+	txt := "the group reader lists every entry: in Group.loadChildren an index entry returns to the loop head without being appended to the children only under the soft-link predicate; a skip on any other condition (the entry points at the group itself; its address lies beyond the size of the file) removes an existing link from the listing without an error"
+	registry["C03"].Meta.Rules["C03.16"] = txt
+	registry["C03"].Rules = append(registry["C03"].Rules, func(c *Ctx, r *Result) { listingCompleteRule(c, r, "C03.16") })
+	registry["C17"].Meta.Rules["C17.6"] = txt + " - on a truncated file the members behind the cut would vanish instead of failing (shared with C03.16)"
+	registry["C17"].Rules = append(registry["C17"].Rules, func(c *Ctx, r *Result) { listingCompleteRule(c, r, "C17.6") })
+}
